@@ -3,7 +3,7 @@
 import json,subprocess,re
 kf=json.load(open('/verif/known_findings.json'))
 have={e['commit'] for e in kf['fixed']}
-rules=[(r'MetaBox|MediaSegment\.Size|Box\.Size|Box\.EncodeSW|UnpackKey|\.Size\b','C02'),(r'File\.EncodeSW','C03'),(r'pps\.SeqParameterSetID|sps id|SPS through','C15'),(r'DecodeSenc|DecodeFile|Tfhd != nil|DecodeAlst|DecodeUUIDBoxSR|mp4\.|mp4:','C04')]
+rules=[(r'MdatBox\.ReadData|lazy','C08'),(r'MetaBox|MediaSegment\.Size|Box\.Size|Box\.EncodeSW|UnpackKey|\.Size\b','C02'),(r'File\.EncodeSW','C03'),(r'pps\.SeqParameterSetID|sps id|SPS through','C15'),(r'DecodeSenc|DecodeFile|Tfhd != nil|DecodeAlst|DecodeUUIDBoxSR|mp4\.|mp4:','C04')]
 log=subprocess.run("git -C /repo log --reverse --format='%h\t%s'",shell=True,capture_output=True,text=True).stdout.splitlines()
 for l in log:
     h,s=l.split('\t',1)
